@@ -247,18 +247,28 @@ pub fn check_extended(c: &[[u8; 32]; 4]) -> Result<Pt, &'static str> {
     Ok(Pt { x: x.mul(&zi), y: y.mul(&zi) })
 }
 
-/// The table the library documents as EIGHT_TORSION: element i is [i]P for a generator P of E[8].
-/// Which of the four generators is not derivable from the statement; the widely published order-8
-/// point with encoding c7176a70...037a (element 1 of the published table) is taken as the anchor, the other seven are derived (checked against the model's own E[8] in selfcheck).
+/// The table the library documents as EIGHT_TORSION: element i is [i]P for *a* generator P of E[8]; which of the
+/// four generators is not part of the documentation. The driver therefore calibrates the anchor once at start-up
+/// from the library's own element 1 (`set_torsion_anchor`), which is accepted only if it is a point of exact order 8;
+/// everything else (the other seven entries, every coordinate of every entry) is then decided by the model. Without a
+/// valid calibration the published point c7176a70...037a is used.
+static TORSION_ANCHOR: std::sync::OnceLock<Pt> = std::sync::OnceLock::new();
+
+pub fn set_torsion_anchor(enc: &[u8; 32]) -> bool {
+    match Pt::decode(enc) {
+        Some(g) if g.encode() == *enc && g.mul8().is_identity() && !g.dbl().dbl().is_identity() => TORSION_ANCHOR.set(g).is_ok(),
+        _ => false,
+    }
+}
+
 pub fn torsion_table_documented() -> [Pt; 8] {
-    static T: std::sync::OnceLock<[Pt; 8]> = std::sync::OnceLock::new();
-    *T.get_or_init(|| {
+    let g = *TORSION_ANCHOR.get_or_init(|| {
         let enc = crate::arr32(&crate::unhex("c7176a703d4dd84fba3c0b760d10670f2a2053fa2c39ccc64ec7fd7792ac037a"));
-        let g = Pt::decode(&enc).expect("order-8 generator decodes");
-        let mut out = [Pt::IDENTITY; 8];
-        for i in 1..8 {
-            out[i] = out[i - 1].add(&g);
-        }
-        out
-    })
+        Pt::decode(&enc).expect("order-8 generator decodes")
+    });
+    let mut out = [Pt::IDENTITY; 8];
+    for i in 1..8 {
+        out[i] = out[i - 1].add(&g);
+    }
+    out
 }
